@@ -853,6 +853,27 @@ fn ctor_checks<'b, 'a>(st: &mut St, a: Sh<'b, 'a>, r: &Rec) {
                     st.fail("C09/fmt", format!("{what}: alloc_str {:?} != {t:?}", &*b));
                 }
             }
+            // format_args! without arguments takes the `as_str()` shortcut
+            match r.b(6) % 4 {
+                0 => {
+                    if let Ok(b) = a.try_alloc_fmt(format_args!("plain é literal")) {
+                        if &*b != "plain é literal" {
+                            st.fail("C09/fmt", format!("alloc_fmt of a literal gave {:?}", &*b));
+                        }
+                    }
+                }
+                1 => {
+                    if let Ok(c) = a.try_alloc_cstr_fmt(format_args!("ab\0cd")) {
+                        check_cstr(st, c, "ab\0cd", "alloc_cstr_fmt of a literal with a NUL");
+                    }
+                }
+                2 => {
+                    if let Ok(c) = a.try_alloc_cstr_fmt(format_args!("no nul")) {
+                        check_cstr(st, c, "no nul", "alloc_cstr_fmt of a literal");
+                    }
+                }
+                _ => {}
+            }
         }
         10 => {
             // BumpBox<[u8]> -> BumpBox<str>
